@@ -13,7 +13,7 @@
 
    This file contains only the property theorems; proofs are in Proofs/Config.v. *)
 From Coq Require Import ZArith List Bool Lia.
-Require Import JV.Base.PyPrelude JV.Model.Config JV.Gen.T_config_param JV.Proofs.Config.
+Require Import JV.Base.PyPrelude JV.Model.Config JV.Gen.T_config_param JV.Gen.T_active_backend JV.Proofs.Config.
 Import ListNotations.
 Open Scope Z_scope.
 
@@ -23,6 +23,41 @@ Theorem C17_translation_matches_model : forall (V : Type) (param ctxv : option V
   gcp param ctxv dflt = match param with Some v => v | None => match ctxv with Some v => v | None => dflt end end.
 Proof. exact C17_translation_matches_model_holds. Qed.
 Print Assumptions C17_translation_matches_model.
+
+(* _get_active_backend itself, REGENERATED from joblib/parallel.py on every run (Gen/T_active_backend.v), equals the model
+   for every registered default backend class dk; [parallel_init_src dk] is Parallel.__init__ running it *)
+Theorem C17_active_backend_regenerated : forall dk p r v c a,
+  src_get_active_backend dk p r v c = active_backend_dk dk p r c /\
+  parallel_init_src dk a c = parallel_init_dk dk a c.
+Proof. intros. split; [apply src_active_backend_eq | apply parallel_init_src_eq_dk]. Qed.
+
+(* what it returns: the configuration handed back is the THREAD'S OWN configuration, with n_jobs := 1 exactly when the
+   thread fallback fires (never a copy of the defaults or of another dict); the backend is the context's / default one,
+   or Threading / Loky at the same nesting level when a fallback fires *)
+Theorem C17_active_backend_result : forall dk p r v c b ctx,
+  src_get_active_backend dk p r v c = Ok (b, ctx) ->
+  let prefer := gcp p (c_prefer c) d_prefer in
+  let require := gcp r (c_require c) d_require in
+  let explicit := match c_backend c with Some _ => true | None => false end in
+  let b0 := match c_backend c with Some b0 => b0 | None => {| ck := dk; clevel := 0 |} end in
+  valid_prefer prefer = true /\ valid_require require = true /\ (prefer =? 2) && (require =? 1) = false /\
+  ctx = (if force_threads explicit b0 prefer require then set_njobs c (Some (Some 1)) else c) /\
+  b = (if force_threads explicit b0 prefer require then {| ck := BThr; clevel := clevel b0 |}
+       else if force_processes explicit b0 prefer then {| ck := BLoky; clevel := clevel b0 |} else b0) /\
+  clevel b = clevel b0.
+Proof. exact src_active_backend_spec. Qed.
+
+(* the hints when no context names a backend, for every default class (incl. a thread-based default registered with
+   register_parallel_backend(..., make_default=True), where prefer='processes' is the live branch) *)
+Theorem C17_active_backend_hints : forall dk p r v c b ctx,
+  src_get_active_backend dk p r v c = Ok (b, ctx) -> c_backend c = None ->
+  let prefer := gcp p (c_prefer c) d_prefer in
+  let require := gcp r (c_require c) d_require in
+  (require = 1 -> supports_sharedmem (ck b) = true) /\
+  (prefer = 1 -> uses_threads (ck b) = true) /\
+  (prefer = 2 -> uses_threads (ck b) = false \/ ck b = BLoky) /\
+  (prefer = 0 -> require = 0 -> b = {| ck := dk; clevel := 0 |} /\ ctx = c).
+Proof. exact src_active_backend_hints. Qed.
 
 (* SCOPED.  Every program fragment p -- in particular every `with` block, whatever it contains: blocks at any depth,
    failing manager constructions, failing Parallel(...) calls, raise, try/except -- started by thread t with
@@ -66,7 +101,7 @@ Print Assumptions C17_reachable_config.
    _get_active_backend does not fire (and always when n_jobs is passed explicitly); for the backend class: explicit
    argument, else -- fallback not firing -- the innermost block naming a backend, else the default LokyBackend. *)
 Theorem C17_priority : forall k cur a r,
-  stack_inv default_config k cur -> parallel_init a cur = Ok r ->
+  stack_inv default_config k cur -> parallel_init_src BLoky a cur = Ok r ->
   let sp := specs_of k in
   r_verbose r = prio (a_verbose a) s_verbose sp d_verbose /\
   r_kw_verbose r = Z.max 0 (prio (a_verbose a) s_verbose sp d_verbose - 50) /\
@@ -81,16 +116,16 @@ Theorem C17_priority : forall k cur a r,
   (forall kd l, a_backend a = Some (BInst kd l) -> r_kind r = kd) /\
   (a_backend a = None -> forced a cur = false ->
      r_kind r = match innermost spec_kind sp with Some kd => kd | None => BLoky end).
-Proof. exact C17_priority_holds. Qed.
+Proof. exact C17_priority_src. Qed.
 Print Assumptions C17_priority.
 
 (* The one documented exception (asserted by the repo's test_backend_hinting_and_constraints for a context that names a
    process backend together with require='sharedmem'): when the forced thread fallback fires and n_jobs is not passed
    explicitly, the instance gets the backend's default n_jobs = 1 and, with no backend argument, ThreadingBackend. *)
 Theorem C17_priority_forced_fallback : forall cur a r,
-  parallel_init a cur = Ok r -> forced a cur = true ->
+  parallel_init_src BLoky a cur = Ok r -> forced a cur = true ->
   (njobs_arg a = None -> r_njobs r = 1) /\ (a_backend a = None -> r_kind r = BThr).
-Proof. exact C17_priority_forced_fallback_holds. Qed.
+Proof. exact C17_priority_forced_fallback_src. Qed.
 Print Assumptions C17_priority_forced_fallback.
 
 (* full statement "the innermost context's n_jobs wins over the default whenever n_jobs is not passed explicitly and no
@@ -98,20 +133,20 @@ Print Assumptions C17_priority_forced_fallback.
      with parallel_config(n_jobs=2): Parallel(prefer='threads').n_jobs == 1
    (witness: F16_spec / F16_args in Proofs/Config.v; replayed on the implementation by the check) *)
 Theorem C17_priority_njobs_refuted : exists k cur a r,
-  stack_inv default_config k cur /\ parallel_init a cur = Ok r /\
+  stack_inv default_config k cur /\ parallel_init_src BLoky a cur = Ok r /\
   njobs_arg a = None /\ a_backend a = None /\ innermost spec_kind (specs_of k) = None /\
   innermost s_njobs (specs_of k) = Some (Some 2) /\ r_njobs r = 1.
-Proof. exact C17_priority_njobs_refuted_holds. Qed.
+Proof. exact C17_priority_njobs_refuted_src. Qed.
 Print Assumptions C17_priority_njobs_refuted.
 
 (* SHAREDMEM.  A successfully constructed Parallel has a backend with shared memory whenever require='sharedmem' is
    passed to it, and whenever it is the resolved setting (argument or context) and no backend is passed explicitly to
    Parallel: a process backend named by the context is replaced by ThreadingBackend; an explicit process backend
    together with an explicit require='sharedmem' is rejected (construction fails). *)
-Theorem C17_sharedmem : forall a c r, parallel_init a c = Ok r ->
+Theorem C17_sharedmem : forall a c r, parallel_init_src BLoky a c = Ok r ->
   (a_require a = Some 1 -> supports_sharedmem (r_kind r) = true) /\
   (res_require a c = 1 -> a_backend a = None -> supports_sharedmem (r_kind r) = true).
-Proof. exact C17_sharedmem_holds. Qed.
+Proof. exact C17_sharedmem_src. Qed.
 Print Assumptions C17_sharedmem.
 
 (* full statement "require='sharedmem' (argument or context) always yields a backend with shared memory" is FALSE of the
@@ -119,28 +154,28 @@ Print Assumptions C17_sharedmem.
      with parallel_config(require='sharedmem'): Parallel(backend='loky', n_jobs=2)  -> LokyBackend
    (witness: F17_spec / F17_args in Proofs/Config.v; replayed on the implementation by the check) *)
 Theorem C17_sharedmem_context_refuted : exists k cur a r,
-  stack_inv default_config k cur /\ parallel_init a cur = Ok r /\
+  stack_inv default_config k cur /\ parallel_init_src BLoky a cur = Ok r /\
   r_kw_require r = 1 /\ supports_sharedmem (r_kind r) = false.
-Proof. exact C17_sharedmem_context_refuted_holds. Qed.
+Proof. exact C17_sharedmem_context_refuted_src. Qed.
 Print Assumptions C17_sharedmem_context_refuted.
 
 (* PREFER IS ONLY A HINT.  Whatever prefer is (argument or context): a backend passed to Parallel is the one used; a
    backend named by the context is the one used (class and nesting level) unless the resolved require is 'sharedmem';
    only when no backend is named anywhere do the hints choose (threads for require='sharedmem' / prefer='threads'). *)
-Theorem C17_prefer_hint : forall a c r, parallel_init a c = Ok r ->
+Theorem C17_prefer_hint : forall a c r, parallel_init_src BLoky a c = Ok r ->
   (forall kd l, a_backend a = Some (BInst kd l) -> r_kind r = kd) /\
   (forall b, a_backend a = None -> c_backend c = Some b -> res_require a c <> 1 ->
      r_kind r = ck b /\ r_level r = clevel b) /\
   (a_backend a = None -> c_backend c = None ->
      r_kind r = if (res_require a c =? 1) || (res_prefer a c =? 1) then BThr else BLoky).
-Proof. exact C17_prefer_hint_holds. Qed.
+Proof. exact C17_prefer_hint_src. Qed.
 Print Assumptions C17_prefer_hint.
 
 (* invalid or inconsistent hints never produce an instance *)
-Theorem C17_invalid_rejected : forall a c r, parallel_init a c = Ok r ->
+Theorem C17_invalid_rejected : forall a c r, parallel_init_src BLoky a c = Ok r ->
   valid_prefer (res_prefer a c) = true /\ valid_require (res_require a c) = true /\
   a_backend a <> Some BInvalid.
-Proof. exact C17_invalid_rejected_holds. Qed.
+Proof. exact C17_invalid_rejected_src. Qed.
 Print Assumptions C17_invalid_rejected.
 
 (* non-vacuity: a depth-3 nesting with an exception, observed inside and after; the hypotheses of C17_priority hold
